@@ -990,6 +990,10 @@ type copier struct {
 	switchMode bool
 	depth      int
 	subst      func(ast.Expr) ast.Expr // optional: replacement for an expression (already a fresh copy), or nil
+	contLabel  string                  // unroll: `continue` of the unrolled loop becomes `break contLabel`
+	breakLabel string                  // unroll: `break` of the unrolled loop becomes `break breakLabel`
+	loops      int
+	breakables int
 	hostCopy   bool         // plain copy of caller statements: returns are left alone
 	cf         *calleeFacts // facts used to classify returned values (inline_thread.go)
 	sites      []*retSite
@@ -1113,6 +1117,26 @@ func (c *copier) value(v reflect.Value) reflect.Value {
 		case funcLitType:
 			c.depth++
 			defer func() { c.depth-- }()
+		}
+		if c.contLabel != "" || c.breakLabel != "" {
+			switch x := v.Interface().(type) {
+			case *ast.ForStmt, *ast.RangeStmt:
+				c.loops++
+				c.breakables++
+				defer func() { c.loops--; c.breakables-- }()
+			case *ast.SwitchStmt, *ast.TypeSwitchStmt, *ast.SelectStmt:
+				c.breakables++
+				defer func() { c.breakables-- }()
+			case *ast.BranchStmt:
+				if x.Label == nil && c.depth == 0 {
+					if x.Tok == token.CONTINUE && c.loops == 0 && c.contLabel != "" {
+						return reflect.ValueOf(&ast.BranchStmt{TokPos: x.TokPos, Tok: token.BREAK, Label: nid(c.contLabel)})
+					}
+					if x.Tok == token.BREAK && c.breakables == 0 && c.breakLabel != "" {
+						return reflect.ValueOf(&ast.BranchStmt{TokPos: x.TokPos, Tok: token.BREAK, Label: nid(c.breakLabel)})
+					}
+				}
+			}
 		}
 		if v.Elem().Kind() != reflect.Struct {
 			return v
